@@ -14,6 +14,7 @@ package c02
 import (
 	"encoding/json"
 	"fmt"
+	"os"
 	"strconv"
 	"strings"
 
@@ -146,6 +147,10 @@ func (r *runner) flush() {
 		return
 	}
 	c := r.c
+	dbg := os.Getenv("C02_DEBUG") != ""
+	if dbg {
+		fmt.Fprintf(os.Stderr, "[%6.1fs] flush %d cases (stream %s), evals so far %d\n", c.Elapsed().Seconds(), len(cases), cases[0].Stream, c.Res.Evaluations)
+	}
 	var lines []string
 	for _, g := range cases {
 		sx := g.Prog.Sexp()
@@ -167,9 +172,18 @@ func (r *runner) flush() {
 		tag := r.tagFor()
 		reqs[i] = runReq{ID: i, Src: g.Prog.Source(tag), Tag: tag, Nodes: true}
 	}
+	if dbg {
+		fmt.Fprintf(os.Stderr, "[%6.1fs]   model answered\n", c.Elapsed().Seconds())
+	}
 	impls := r.pool.run(reqs)
+	if dbg {
+		fmt.Fprintf(os.Stderr, "[%6.1fs]   origami answered\n", c.Elapsed().Seconds())
+	}
 	for i, g := range cases {
 		p := g.Prog
+		if dbg {
+			fmt.Fprintf(os.Stderr, "[%6.1fs]   case %d\n", c.Elapsed().Seconds(), i)
+		}
 		ref := RunRef(p, refBudgetN)
 		if ref.Status == "budget" {
 			c.Hit("skipped:reference-budget")
@@ -235,7 +249,13 @@ func (r *runner) flush() {
 			c.Hit("known-divergence:" + quick)
 			continue
 		}
+		if dbg {
+			fmt.Fprintf(os.Stderr, "[%6.1fs]   shrinking case %d (%s, %s)\n", c.Elapsed().Seconds(), i, g.Stream, kind)
+		}
 		sp := r.shrink(p, g.Stream, ref.Status, kind)
+		if dbg {
+			fmt.Fprintf(os.Stderr, "[%6.1fs]   shrunk\n", c.Elapsed().Seconds())
+		}
 		sref := RunRef(sp, refBudgetN)
 		simpl := r.runImpl(sp, r.tagFor())
 		skind := divergenceKind(simpl, sref)
@@ -584,14 +604,14 @@ func corpus() []gcase {
 
 func Run(c *vh.Ctx) {
 	r := &runner{c: c, shrunk: map[string]int{}, pool: newPool(c.Workers)}
-	defer r.pool.close()
+	defer func() { fmt.Fprintln(os.Stderr, "closing pool"); r.pool.close(); fmt.Fprintln(os.Stderr, "pool closed") }()
 	if c.ModelPath != "" {
 		m, err := vh.StartModel(c.ModelPath)
 		if err != nil {
 			c.Note("cannot start model: %v", err)
 		} else {
 			r.m = m
-			defer m.Close()
+			defer func() { fmt.Fprintln(os.Stderr, "closing model"); m.Close(); fmt.Fprintln(os.Stderr, "model closed") }()
 			c.Res.ModelUsed = true
 		}
 	}
@@ -630,6 +650,9 @@ func Run(c *vh.Ctx) {
 	}
 	// seeded programs
 	n := c.N(1500, 60000)
+	if v, err := strconv.Atoi(os.Getenv("C02_N")); err == nil {
+		n = v
+	}
 	for i := 0; i < n && !r.stopped; i++ {
 		r.add(gcase{Prog: Generate(c.Rand, GenOpts{MaxDepth: c.Rand.Range(2, 5)}), Stream: "main"})
 	}
@@ -642,5 +665,8 @@ func Run(c *vh.Ctx) {
 	r.flush()
 	if r.m != nil {
 		c.Res.ModelLines = r.m.Lines
+	}
+	if os.Getenv("C02_DEBUG") != "" {
+		fmt.Fprintf(os.Stderr, "[%6.1fs] run finished\n", c.Elapsed().Seconds())
 	}
 }
